@@ -16,6 +16,8 @@ for d in sorted(glob.glob(os.path.join(VERIF, 'seeded', '*'))):
     first = m.get('history', '')
     first = 'missed, then caught' if first.lower().startswith(('missed', 'the first run ended')) else 'caught'
     now = ', '.join(m.get('detected_by', [])) or 'NOT CAUGHT'
+    if m.get('superseded'):
+        now = 'no longer a defect (superseded by a repair, see meta.json)'
     if m.get('out_of_scope'):
         first = 'not caught'
         now = 'none (judged outside the property)'
